@@ -301,6 +301,7 @@ type vfC36File struct {
 	lang     vfC36Atom // -1: detect
 	sub      bool
 	branches int // bit mask over repo branches (at least one)
+	pads     []vfC36Pad // extra lines: long run ++ needle ++ long run (zz_verif_c36funcs_test.go)
 }
 type vfC36Repo struct {
 	name, rawURL     vfC36Atom
@@ -324,10 +325,12 @@ type vfC36Shape struct {
 type vfC36Inst struct {
 	atoms                 []string
 	fileTs, fragTs, comTs []string
+	hostile               bool
 }
 
 func vfC36GenShape(r *vfRand) *vfC36Shape {
 	sh := &vfC36Shape{}
+	limits := vfC36SiteConsts(vfC36FuncSites())
 	na := 0
 	atom := func() vfC36Atom { na++; return vfC36Atom(na - 1) }
 	sh.needle = atom()
@@ -378,6 +381,13 @@ func vfC36GenShape(r *vfRand) *vfC36Shape {
 					f.lines = append(f.lines, ln)
 				}
 			}
+			if dupOf >= 0 {
+				f.pads = rp.files[dupOf].pads
+			} else if r.Chance(60) {
+				for k := 0; k < 1+r.Intn(3); k++ {
+					f.pads = append(f.pads, vfC36GenPad(r, limits))
+				}
+			}
 			rp.files = append(rp.files, f)
 		}
 		sh.repos = append(sh.repos, rp)
@@ -402,7 +412,7 @@ func vfC36Benign(sh *vfC36Shape) *vfC36Inst {
 }
 
 func vfC36Hostile(sh *vfC36Shape, r *vfRand) *vfC36Inst {
-	in := &vfC36Inst{}
+	in := &vfC36Inst{hostile: true}
 	for i := 0; i < sh.natoms; i++ {
 		p := r.Pick(vfC36Payloads)
 		if r.Chance(15) {
@@ -472,6 +482,10 @@ func vfC36Build(sh *vfC36Shape, in *vfC36Inst) (zoekt.Streamer, error) {
 					}
 					cb.WriteString(in.atoms[a])
 				}
+				cb.WriteByte('\n')
+			}
+			for _, p := range f.pads {
+				cb.Write(vfC36PadLine(p, in.atoms[sh.needle], in.hostile))
 				cb.WriteByte('\n')
 			}
 			doc.Content = cb.Bytes()
@@ -1085,6 +1099,9 @@ func TestVerifC36(t *testing.T) {
 
 	// ---- E: response classes of every route (zz_verif_c36resp_test.go)
 	vfC36PartE(t, r, n)
+
+	// ---- F: the template functions called directly (zz_verif_c36funcs_test.go)
+	vfC36PartF(vfNewRand(r.U64()), n)
 
 	// ---- D: through the public builder API: a document whose SubRepositoryPath is accepted but is not a prefix of its name
 	for _, c := range [][2]string{{"a", "a/b/c"}, {"x/y.go", "x/y.go/z/w"}} {
